@@ -370,6 +370,16 @@ MUTANTS += [
     B("c07-skip-targets-by-source-sets", "C07", D, "            for edge in target_edges:\n                self.remove_edge(edge)\n", "            handled = {edge[0] for edge in source_edges}\n            for edge in target_edges:\n                if edge[1] in handled:\n                    continue\n                self.remove_edge(edge)\n", "K-ROLEMEM"),
 ]
 
+# ---------------------------------------------------------------------- rules of seed round sf
+MUTANTS += [
+    # M-SWEEP: the window sweep over the edge index in insertion order
+    B("c03-aggregate-sweeps-insertion-order", "C03", T, "        sorted_edges = sorted(self.get_edges())", "        sorted_edges = list(self.get_edges())", "M-SWEEP"),
+    # D-SYNC: recoveries written into the state that is read for the neighbours
+    B("c18-recovery-written-into-old-state", "C18", CONT, "                I_new[node] = 0\n", "                I_old[node] = 0\n", "D-SYNC"),
+    # E-INPLACE edits-only
+    B("c14-add-random-edges-replaces-state", "C14", RND, "    if inplace:\n        hg.add_edges(list(edges))\n    else:\n        h = hg.copy()\n        h.add_edges(list(edges))\n        return h", "    h = hg.copy()\n    h.add_edges(list(edges))\n    if inplace:\n        hg.populate_from_dict(h.expose_data_structures())\n    else:\n        return h", "E-INPLACE"),
+]
+
 
 def for_property(prop: str) -> List[Mutant]:
     return [m for m in MUTANTS if m.prop == prop]
